@@ -552,10 +552,37 @@ def locate_cause(text, header, env):
 
 
 # generic signatures with a type variable two levels deep, instantiated twice; library generics over two element types
-GENERICS = '''from typing import TypeVar
+GENERICS = '''from typing import Generic, TypeVar
 
 K = TypeVar('K')
 T = TypeVar('T')
+
+class GBox(Generic[T]):
+	val: T
+
+	def __init__(self, val: T) -> None:
+		self.val = val
+
+	def get(self) -> T:
+		return self.val
+
+	def pair(self) -> tuple[T, int]:
+		return (self.val, 1)
+
+	@classmethod
+	def make(cls, val: T) -> 'GBox[T]':
+		return cls(val)
+
+def opt_box(o: GBox[float] | None, n: int) -> int:
+	if o is not None:
+		g1 = o.get()
+		t1 = o.pair()[0]
+		v1 = o.val
+	mk = GBox.make('a')
+	mv = mk.val
+	ib = GBox(n)
+	ig = ib.get()
+	return n
 
 def both(k: K, v: T) -> dict[K, list[T]]:
 	return {k: [v]}
@@ -585,6 +612,7 @@ def g_main(n: int) -> int:
 		total += k2
 	e1 = first(fs)
 	e2 = first(ss)
+	total += opt_box(GBox(1.5), n)
 	return total
 '''
 
